@@ -162,6 +162,14 @@ def main():
                 res["fresh"] = [list(g) for g in got2]
         except Exception as e:
             res["raised"] = {"type": type(e).__name__, "msg": str(e)[:300]}
+        if spec.get("reuse") and spec["abandon"] is None:
+            # the same Multiprocessor object is used for a second, healthy stream (state of the first call must not matter)
+            phase["name"] = "reuse"
+            n2 = spec["reuse"]
+            try:
+                res["got2"] = [list(o) for o in mp.filter([(1000 + i, "") for i in range(n2)])]
+            except Exception as e:
+                res["raised2"] = {"type": type(e).__name__, "msg": str(e)[:300]}
         phase["name"] = "done"
         res["status"] = "returned"
     except BaseException as e:
